@@ -21,7 +21,7 @@ var c05TM map[string]reflect.Type
 var c05NM map[string]string
 
 func init() {
-	all := []interface{}{&zoo.F3{}, &zoo.F4{}, &zoo.F5{}, &zoo.F9{}, &zoo.Inner{}, []int32{1}, []string{"a"}}
+	all := []interface{}{&zoo.F3{}, &zoo.F4{}, &zoo.F5{}, &zoo.F9{}, &zoo.Inner{}, []int32{1}, []string{"a"}, zoo.NMap{"k": &zoo.CN1{}}, zoo.PlainMap{"k": 1}}
 	for _, kt := range zoo.KTypes {
 		all = append(all, reflect.New(kt).Interface())
 	}
